@@ -1,8 +1,11 @@
 //! Correspondence harness: generates cases, runs the real kitoken code in-process and writes
 //! `OP args :: implementation answer` lines for the Lean driver.
 mod c13;
+mod defs;
+mod gen;
 mod rng;
 mod sink;
+mod smoke;
 mod util;
 
 use std::io::Write;
@@ -35,6 +38,7 @@ fn main() {
             let mut out = sink::Sink::new(shards);
             match prop {
                 "C13" => c13::gen(&mut rng, thorough, &mut out),
+                "SMOKE" => smoke::gen(&mut rng, thorough, &mut out),
                 _ => {
                     eprintln!("unknown property {}", prop);
                     std::process::exit(2);
